@@ -93,6 +93,9 @@ fn run_case(c: &Case) -> Vec<(String, String)> {
             v.push(x);
         }
     }
+    if let Some(x) = crate::truth::check_sortable(&msgs) {
+        v.push(x);
+    }
     if msgs.is_empty() {
         v.push(("__nomsg".into(), String::new()));
     }
@@ -264,7 +267,7 @@ pub fn run(tier: Tier) -> i32 {
     rep.cov("distinct_nontrivial", json!(with_msgs));
     rep.cov("exhaustive", json!(true));
     rep.cov("rule", json!("every message of: the C02 fault x site menu (every 3rd site in quick, all in thorough) x modes; witness streams with all payload words / non-framing header bytes replaced by arbitrary bytes (6 / 24 salts) x modes x {no filter, each link, each FEE id, each layer-stave} x {file-like, pipe-like}; the same with empty-payload packets (foreign / same link) inserted at 3 position patterns; format-2 payloads whose second word begins with 1..5 zero bytes; truncated tails; a CLI subset. non-trivial = the run produced at least one message to check"));
-    rep.sample(json!({"check": "0x<offset> in input and at an RDH/word start; [b0..b9] == input[offset..offset+10]; `current :` row == decoded RDH at offset; `previous:` rows == the same link's two preceding RDHs"}));
+    rep.sample(json!({"check": "every run's messages pass through a real StatsCollector (collect, finalize): no panic in its offset parser, sorted ascending; 0x<offset> in input and at an RDH/word start; [b0..b9] == input[offset..offset+10]; `current :` row == decoded RDH at offset; `previous:` rows == the same link's two preceding RDHs"}));
     rep.assume("panics / crashes are not judged here (C04); the messages printed before are");
     rep.assume("payload layout agrees with the header's data format (the property's premise); words never end in 0xFF and the second word of a format-2 payload does not start with six zero bytes");
     rep.finish()
